@@ -19,7 +19,8 @@ ASSUMPTIONS = ['parameters admissible for their mnemonic (radii > 0, non-colline
 
 def plan(tier):
     q = tier == 'quick'
-    return [('probe', 360 if q else 7000, {}), ('mixed', 80 if q else 1500, {})]
+    return [('probe', 360 if q else 7000, {}), ('mixed', 80 if q else 1500, {}),
+            ('surfmodel', 700 if q else 20000, {})]
 
 
 def search_plan(tier, disagreements):
@@ -33,8 +34,79 @@ def _known(d, res):
     return None
 
 
+def code_card(mn, ps):
+    """the real conversion of one elementary card: [(T4 keyword, side, params)] or ('error', class)"""
+    from t4_geom_convert.Kernel.FileHandlers.Parser.ParseMCNPSurface import to_surfaces_mcnp
+    from t4_geom_convert.Kernel.Surface.ConversionSurfaceMCNPToT4 import convert_mcnp_surface
+    val = to_surfaces_mcnp(1, ('', None, mn, [float(x) for x in ps]), {})
+    coll = convert_mcnp_surface(1, val)
+    return [(s.type_surface.name, int(side), [float(x) for x in s.param_surface], s.transform) for s, side in coll]
+
+
+def compare_card(ctx, cmd, mn, ps, stream, extra_dist=None):
+    """one card through the real conversion and through the Lean model (driver command `cmd`)"""
+    import struct
+    key = h((mn, tuple(ps)))
+    try:
+        code = code_card(mn, ps)
+    except Exception as e:  # noqa
+        code = ('error', type(e).__name__)
+    resp = ctx['drv'].ask('%s %s %s' % (cmd, mn, ' '.join(repr(float(x)) for x in ps)))
+    fails = []
+    sig = {'stream': stream, 'mnemonic': mn, 'arity': len(ps)}
+    replay = {'mnemonic': mn, 'params': ps, 'cmd': cmd}
+
+    def dis(msg):
+        fails.append(fail('disagreement', 'card %s %r: %s' % (mn, ps, msg), sig, replay))
+    rejected = bool(code) and code[0] == 'error'
+    if not resp.startswith('ok'):
+        dis('driver: ' + resp)
+    elif resp == 'ok none':
+        if not rejected:
+            dis('model rejects, code gives %r' % (code,))
+    elif rejected:
+        dis('code raises %s, model gives %s' % (code[1], resp))
+    else:
+        items = resp.split()[1:]
+        if len(items) != len(code):
+            dis('code emits %d surfaces, model %d' % (len(code), len(items)))
+        else:
+            for it, (kname, side, cps, tr) in zip(items, code):
+                k, sd, bits = it.split(':')
+                mps = [struct.unpack('<d', struct.pack('<Q', int(b)))[0] for b in bits.split(',')] if bits else []
+                if k != kname or int(sd) != side or len(mps) != len(cps) or tr is not None:
+                    dis('code %s side %d %r tr=%r / model %s side %s %r' % (kname, side, cps, tr is not None, k, sd, mps))
+                    break
+                if any(abs(a - b) > 1e-9 * max(1.0, abs(a), abs(b)) for a, b in zip(mps, cps)):
+                    dis('parameters differ: code %r / model %r' % (cps, mps))
+                    break
+    dist = {'%s:%s/%d' % (stream, mn, len(ps)): 1, '%s:%s' % (stream, 'rejected' if rejected else 'converted'): 1}
+    dist.update(extra_dist or {})
+    return dict(hashes=[key], nontrivial_hashes=[key], dist=dist,
+                sample={'card': [mn, ps], 'code': repr(code)[:300]}, failures=fails)
+
+
+def surfmodel_case(seed, rng, ctx):
+    """Lean model of normalize_surface + mcnp2cad + conversion_surface_params vs the code, one card"""
+    kind = P.ELEMENTARY[seed % len(P.ELEMENTARY)]
+    m = rng.random()
+    if kind == 'p3' and m < 0.5:
+        mn, ps = P.p3_through_origin(rng)
+    elif kind == 'sq':
+        mn, ps = P.sq_card(rng)
+    else:
+        mn, ps = G.elementary(rng, [kind])
+    if rng.random() < 0.3:           # off-grid parameters
+        ps = [x + rng.choice([0.0, 0.125, -0.3, 1e-3]) if i != len(ps) - 1 or kind[-1] != '1' else x for i, x in enumerate(ps)]
+    if rng.random() < 0.06:          # wrong parameter count: both must reject
+        ps = ps[:-1] if rng.random() < 0.5 and len(ps) > 1 else ps + [1.0]
+    return compare_card(ctx, 'surfmodel', mn, ps, 'surfmodel')
+
+
 def run_case(stream, seed, ctx, params):
     rng = random.Random(seed)
+    if stream == 'surfmodel':
+        return surfmodel_case(seed, rng, ctx)
     if stream == 'mixed':
         d = G.build_flat_deck(rng, macro_p=0.0, tr_p=0.0, nsurf=rng.randint(2, 5))
         return run_deck(ctx, stream, d, [], rng, npts=200)
@@ -53,4 +125,13 @@ def run_case(stream, seed, ctx, params):
     return r
 
 
-replay = replay_deck
+def replay(payload, ctx):
+    p = payload.get('payload') or {}
+    if 'mnemonic' in p:
+        try:
+            code = repr(code_card(p['mnemonic'], p['params']))
+        except Exception as e:  # noqa
+            code = 'raises %s: %s' % (type(e).__name__, e)
+        return {'code': code,
+                'model': ctx['drv'].ask('%s %s %s' % (p.get('cmd', 'surfmodel'), p['mnemonic'], ' '.join(repr(float(x)) for x in p['params'])))}
+    return replay_deck(payload, ctx)
